@@ -102,10 +102,16 @@ def run_shards(variant, prop, tier, seed, nshards, out_dir, extra_args, timeout_
         else:
             cmd = [binary(variant), prop]
         cmd += ["--tier", tier, "--seed", str(seed), "--shard", str(i), "--nshards", str(nshards), "--out", out_dir, "--repo", REPO] + extra_args
+        penv = dict(env)
+        for k2, v2 in list(penv.items()):
+            if isinstance(v2, str) and "{shard}" in v2:
+                penv[k2] = v2.replace("{shard}", str(i))
+        if variant == "miri":
+            penv["CARGO_TARGET_DIR"] = target_dir("miri")
         so = open(os.path.join(out_dir, f"shard-{i}.stdout"), "w")
         se = open(os.path.join(out_dir, f"shard-{i}.stderr"), "w")
         cwd = HARNESS if variant == "miri" else VERIF
-        p = subprocess.Popen(cmd, cwd=cwd, env=env, stdout=so, stderr=se, start_new_session=True)
+        p = subprocess.Popen(cmd, cwd=cwd, env=penv, stdout=so, stderr=se, start_new_session=True)
         procs.append((i, p, so, se))
     deadline = time.time() + timeout_s
     results = []
@@ -317,6 +323,7 @@ def run_canary(variant, mode):
     if variant == "miri":
         cmd = ["cargo", "+nightly", "miri", "run", "--profile", "checked", "--bin", "canary", "--", mode]
         env["MIRIFLAGS"] = "-Zmiri-disable-isolation"
+        env["CARGO_TARGET_DIR"] = target_dir("miri")
         cwd = HARNESS
     else:
         cmd = [binary(variant, "canary"), mode]
